@@ -26,7 +26,8 @@ static void *elem_arg(const char *h, size_t *n) { if (!strcmp(h, "NULL")) { *n =
 
 static void dump(qvector_t *v) {
     printf(" | num=%zu max=%zu objsize=%zu data=", v->num, v->max, v->objsize);
-    if (v->data == NULL) printf("%s", v->num == 0 ? "-" : "NULL"); else puthex(stdout, v->data, v->num * v->objsize);
+    /* never read beyond the block: a (wrong) num > max is visible in the num/max fields */
+    if (v->data == NULL) printf("%s", v->num == 0 ? "-" : "NULL"); else puthex(stdout, v->data, (v->num <= v->max ? v->num : v->max) * v->objsize);
 }
 
 /* thorough tier only: n elements of os bytes (element i = its index, little endian, repeated), removefirst, then every sampled
@@ -103,7 +104,7 @@ int main(int argc, char **argv) {
             } else if (!strcmp(op, "reverse")) { in_call = 1; v->reverse(v); in_call = 0; printf("ok");
             } else if (!strcmp(op, "toarray")) {
                 size_t n = 12345; errno = 0; in_call = 1; void *r = v->toarray(v, &n); in_call = 0; int e = errno;
-                if (r) { printf("array %zu ", n); puthex(stdout, r, n * os); scribble_free(r, n * os); }
+                if (r) { printf("array %zu ", n); puthex(stdout, r, v->num * os); scribble_free(r, v->num * os); }   /* the block has num elements whatever *size says */
                 else { printf("refused %s", ename(e)); if (n != 0) printf(" size=%zu", n); }
             } else if (!strcmp(op, "walk")) {
                 qvector_obj_t o; memset(&o, 0, sizeof o); o.index = atoi(a1); int n = atoi(a2), ended = 0, first = 1;
